@@ -65,6 +65,12 @@ func vpMk_NLV(shape int, tag byte) NaturalLanguageValues {
 		return NaturalLanguageValues{{Ref: "en", Value: vpText2()}}
 	case 5: // allocated but empty
 		return NaturalLanguageValues{}
+	case 6: // present entries whose texts are empty
+		return NaturalLanguageValues{{Ref: "en", Value: Content{}}}
+	case 7:
+		return NaturalLanguageValues{{Ref: NilLangRef, Value: Content{}}}
+	case 8:
+		return NaturalLanguageValues{{Ref: "en", Value: Content{}}, {Ref: "fr", Value: nil}}
 	case 3: // a repeated tag (only where the codec promises to keep lists as they are: gob)
 		return NaturalLanguageValues{{Ref: "en", Value: vpText2()}, {Ref: "fr", Value: vpText2()}, {Ref: "en", Value: vpText2()}}
 	case 4: // two untagged texts
